@@ -91,12 +91,18 @@ Print Assumptions C13_prompt_stop_refuted.
    Model/Conc.v: block producer, header submitter, data submitter and DA-includer of an aggregator as programs
    over atomic actions (one durable write / one read of shared state / one call to a double), started from a
    fresh node (initial height 1).  A schedule is a list of (activity, answer of the double if the action is a
-   call).  NOT in the model: reaper, retriever, P2P pollers, sync loop (so C02 is not covered), datastore errors.
+   call).  Block production includes the pending-limit test at the head of publishBlockInternal and
+   PendingData.numWaitingData, which steps over data without transactions right above the data watermark: the
+   data watermark has TWO writers (data submission loop, block production), both through
+   pendingBase.setLastSubmittedHeight = Lock; load + compare-and-swap; put; Unlock (four actions; the mutex
+   setMu of the repair d1559c9 is part of the shared state).
+   NOT in the model: reaper, retriever, P2P pollers, sync loop (so C02 is not covered), datastore errors.
 
    For EVERY schedule, after EVERY action (every prefix): the joint invariant J holds - G: the committed chain
    1..height is present, final and hash-linked, an early-saved block above it already names the top block
-   (C01); both submission watermarks are at most the height, the durable ones at most the volatile ones, and
-   everything at or below a watermark that its submitter sends is on the DA layer (C06); every DA-included mark
+   (C01); both submission watermarks are at most the height, the durable ones at most the volatile ones and EQUAL
+   to them whenever the watermark's mutex is free, and everything at or below a watermark that its submitter
+   sends is on the DA layer (C06); every DA-included mark
    is backed by the DA layer, the DA-included height is at most the height, every block at or below it is
    entirely on the DA layer, and DA-included <= persisted <= finalized <= DA-included + 1 (C07) - together with
    what each activity knows at each program point (Pcl / Scl / Icl: e.g. the state record is one above the store
@@ -110,7 +116,8 @@ Theorem C13_interleaving_from_full : forall (st : state) (sched : list (act * en
 Proof. exact interleaving_from. Qed.
 Print Assumptions C13_interleaving_from_full.
 
-(* across every single action of every schedule: the height, both watermarks and the DA-included height never
+(* across every single action of every schedule: the height, both watermarks - the volatile values AND the
+   durable (recorded) ones, with two concurrent writers of the data watermark - and the DA-included height never
    go back, committed blocks are never rewritten, the DA layer never loses a blob *)
 Theorem C13_monotone_full : forall (sched : list (act * env)) (ae : act * env),
   mono (sh (run init sched)) (sh (run init (sched ++ [ae]))).
@@ -120,9 +127,34 @@ Print Assumptions C13_monotone_full.
 (* the boolean check that the harness evaluates on the real halted aggregator holds of every reachable model
    state in which the producer is between two steps *)
 Theorem C13_observable_check_full : forall sched : list (act * env),
-  pp (run init sched) = P0 -> gcheck (sh (run init sched)) = [].
+  pp (run init sched) = PL0 -> gcheck (sh (run init sched)) = [].
 Proof. exact gcheck_reachable. Qed.
 Print Assumptions C13_observable_check_full.
+
+(* the two writers of the data watermark exclude each other between Lock and Unlock, on every schedule *)
+Theorem C13_watermark_mutex_full : forall sched : list (act * env),
+  ~ (holds_p (pp (run init sched)) = true /\ holds_s (ps (run init sched) Dat) = true).
+Proof. exact watermark_mutex. Qed.
+Print Assumptions C13_watermark_mutex_full.
+
+(* whenever nobody is inside setLastSubmittedHeight the recorded watermark is the in-memory one: a restart resumes
+   exactly where the node stood, nothing accepted is submitted again *)
+Theorem C13_recorded_watermark_full : forall (sched : list (act * env)) (k : kind),
+  mu (sh (run init sched)) k = 0%N -> wmp (sh (run init sched)) k = wmv (sh (run init sched)) k.
+Proof. exact durable_is_volatile_when_free. Qed.
+Print Assumptions C13_recorded_watermark_full.
+
+(* PRE-REPAIR behaviour (before d1559c9; Model/Conc.v run_old = the same programs with Lock / Unlock doing
+   nothing): compare-and-swap in memory, then the store write, unordered between the two writers.  C13_monotone_full
+   is FALSE of that code: on the schedule two_writers_sched block production steps over the empty block 1 (swaps
+   0 -> 1), the data submission loop has block 2 accepted, swaps 1 -> 2 and stores 2, then block production
+   stores 1 - the recorded height goes 2 -> 1 with block 2's data already on the DA layer.  Confirmed on the real
+   pre-repair code by the harness (seeded/C13-5 = revert of the repair; findings/C13-two-writers-data-watermark.json). *)
+Theorem C13_two_writers_unlocked_refuted :
+  ~ (forall (sched : list (act * env)) (ae : act * env),
+       mono (sh (run_old init sched)) (sh (run_old init (sched ++ [ae])))).
+Proof. exact two_writers_unlocked_false. Qed.
+Print Assumptions C13_two_writers_unlocked_refuted.
 
 (* ---- part A, NON-aggregator set (Model/ConcFull.v): delivery of header / data events in any order (DA scan and
    P2P pollers; a DA event first sets its DA-included mark), the sync loop with trySyncNextBlock (repaired write
@@ -174,19 +206,39 @@ Proof. vm_compute. split; [discriminate | reflexivity]. Qed.
    transactions) is produced while the header submitter already runs, submitted (header and data), marked,
    and DA-included while the producer is in the middle of block 2 *)
 Definition ok (n : N) : env := {| e_ok := true; e_txs := true; e_n := n |}.
+Definition skip : env := {| e_ok := false; e_txs := false; e_n := 0 |}.   (* limit test: numWaitingData not called *)
 Definition ex_sched : list (act * env) :=
-  [ (AProd, ok 0); (AProd, ok 0); (ASub Hdr, ok 0); (AProd, ok 0); (AProd, ok 0); (AProd, ok 0); (AProd, ok 7);
+  [ (AProd, skip); (AProd, ok 0); (AProd, ok 0); (ASub Hdr, ok 0); (AProd, ok 0); (AProd, ok 0); (AProd, ok 0); (AProd, ok 7);
     (AIncl, ok 0); (AProd, ok 0); (AProd, ok 0); (AProd, ok 0); (AIncl, ok 0); (AProd, ok 0); (AProd, ok 0);
     (* height is 1 now *)
-    (ASub Hdr, ok 0); (AProd, ok 0); (ASub Dat, ok 0); (ASub Hdr, ok 0); (AProd, ok 0); (ASub Dat, ok 0);
+    (ASub Hdr, ok 0); (AProd, skip); (AProd, ok 0); (ASub Dat, ok 0); (ASub Hdr, ok 0); (AProd, ok 0); (ASub Dat, ok 0);
     (ASub Hdr, ok 1); (AProd, ok 0); (ASub Dat, ok 1); (AProd, ok 0); (ASub Hdr, ok 0); (ASub Dat, ok 0); (AProd, ok 0);
     (AIncl, ok 0); (ASub Hdr, ok 0); (AIncl, ok 0); (ASub Dat, ok 0); (AProd, ok 9); (AIncl, ok 0); (AIncl, ok 0);
-    (ASub Hdr, ok 0); (AIncl, ok 0); (AIncl, ok 0); (ASub Dat, ok 0); (AIncl, ok 0); (AIncl, ok 0); (AIncl, ok 0) ].
+    (ASub Hdr, ok 0); (AIncl, ok 0); (AIncl, ok 0); (ASub Dat, ok 0); (AIncl, ok 0); (AIncl, ok 0); (AIncl, ok 0);
+    (* the put and the Unlock of both submitters *)
+    (ASub Hdr, ok 0); (ASub Dat, ok 0); (ASub Hdr, ok 0); (ASub Dat, ok 0) ].
 Example ex_sched_reaches :
   let s := sh (run init ex_sched) in
-  (ht s, wmv s Hdr, wmv s Dat, wmp s Hdr, di s, pdi s, fin s) = (1, 1, 1, 1, 1, 1, 1)%N
-  /\ blk s 2 <> None /\ pp (run init ex_sched) <> P0.
+  (ht s, wmv s Hdr, wmv s Dat, wmp s Hdr, wmp s Dat, di s, pdi s, fin s) = (1, 1, 1, 1, 1, 1, 1, 1)%N
+  /\ blk s 2 <> None /\ pp (run init ex_sched) <> PL0.
 Proof. vm_compute. repeat split; discriminate. Qed.
+
+(* the two writers of the data watermark.  Pre-repair discipline: the recorded height decreases (2 -> 1) and all
+   mutexes are free, i.e. the state is at rest with recorded < in-memory and block 2's data on the DA layer ... *)
+Example ex_two_writers_before_the_repair :
+  let a := sh (run_old init two_writers_sched) in
+  let b := sh (run_old init (two_writers_sched ++ [two_writers_last])) in
+  (wmv a Dat, wmp a Dat) = (2, 2)%N /\ (wmv b Dat, wmp b Dat) = (2, 1)%N /\
+  mem (2, 12)%N (da b Dat) = true /\ (forall k, mu b k = 0%N).
+Proof. exact two_writers_unlocked_witness. Qed.
+(* ... and the SAME schedule with the mutex: the submission loop waits at Lock while block production is between
+   its swap and its store; the step-over (a real second writer: the watermark moves 0 -> 1 without a submission)
+   and the submission both take effect in order *)
+Example ex_two_writers_with_the_mutex :
+  let b := sh (run init (two_writers_sched ++ [two_writers_last])) in
+  let c := sh (run init (two_writers_sched ++ [two_writers_last; (AProd, skip); (ASub Dat, skip); (ASub Dat, skip); (ASub Dat, skip); (ASub Dat, skip)])) in
+  (wmv b Dat, wmp b Dat) = (1, 1)%N /\ (wmv c Dat, wmp c Dat) = (2, 2)%N.
+Proof. vm_compute. split; reflexivity. Qed.
 
 (* ---- the defects that were repaired, over the FROZEN table generated before the repairs (Check/StopBefore.v) ---- *)
 Example before_the_repair_non_cancellable :
